@@ -13,8 +13,14 @@ PROPS_PART = {
                    'cannot underflow. Trusted: Verus/Z3; stand-ins for Name/Label (labels view, eq_or_subdomain_of, superdomain, Index), '
                    'HashMap<LabelBuf,_>::get, binary_search_by_key, RdataSet views; lookup_all\'s boxed iterator is a stand-in that yields '
                    'the node\'s RRset list (rewrite ZN7). Zone-trait methods are checked as inherent methods. Bodies extracted from /repo on every run.',
-        verus=[dict(unit='zone', which='all')],
+        verus=[dict(unit='zone', which='all', fns=['lookup', 'lookup_addrs', 'lookup_all', 'lookup_base', 'lookup_impl'])],
         kani=[],
+        native=[dict(bin='bnd_zone', when='quick',
+                     bound='all 2^15 zones that are subsets of a 15-record universe under one apex (apex SOA/NS, node with A x2/AAAA/TYPE257 + child, wildcard with A/CNAME and a record below it, '
+                           'delegation + glue + a second occluded NS set deeper on the path, CNAME owner; mixed-case owners; <=3-record subsets also under a mixed-case apex) x 29 query names '
+                           '(existing, empty non-terminal, wildcard-covered, below cuts, non-existent, mixed case, 6 outside the zone) x 8 types + lookup_addrs + lookup_all x search_below_cuts x checked/unchecked (unchecked only in-zone)',
+                     what='public API of the real HashMapTreeZone vs an independent flat-list resolver written from RFC 1034 4.3.2 step 3 / RFC 4592 3.3 (bounded/src/zone_ref.rs): outcome kind, TTL + RDATA payload, '
+                          'source of synthesis, topmost cut and its NS RRset, wrong-zone; also iteration/soa/ns of each zone. Not constrained: RDATA order, octet case of stored names, Cname vs Found-without-addresses for lookup_addrs at a CNAME-only node')],
         cex={},
         unverified=['trait dispatch through `dyn Zone`/generic `Z: Zone` and the provided default methods of trait Zone',
                     'the iterator object returned by lookup_all is not executed (stand-in: built from exactly the resolved node\'s RRset list)',
@@ -39,8 +45,15 @@ PROPS_PART = {
                    '"Duplicate" is Rdata::equals (C19), uninterpreted here. Trusted: stand-ins for HashMap entry/or_insert_with (prophecy '
                    'reading of &mut), values()/Values::next with a fixed enumeration order, mem::replace, Vec::insert (vstd), RdataSetOwned::insert, '
                    'hand-expanded derive(Default/Ord) (bodies verified).',
-        verus=[dict(unit='zone', which='all')],
+        verus=[dict(unit='zone', which='all', fns=['add', 'get_or_create_descendant', 'new', 'iter', 'execute_state_machine', 'next', 'soa', 'ns', 'from', 'name', 'class', 'glue_policy', 'lookup'])],
         kani=[],
+        native=[dict(bin='bnd_zone_add', when='quick',
+                     bound='all add sequences of length <= 4 over a 20-record universe (accepted: new/nested owners creating empty non-terminals, mixed-case owners, duplicates, case-variant NS RDATA, TYPE257, wildcard, delegation + glue, CNAME; '
+                           'rejected: owner above/beside the zone, class mismatch at an existing and at new deep owners, TTL mismatch for A and for TYPE257), each from a fresh zone (so every intermediate state is observed); '
+                           'sequences of length <= 2 also under a mixed-case apex; after each: full iteration, soa/ns, checked lookups of 20 names x 6 types + addrs + all x search_below_cuts',
+                     what='public API of the real HashMapTreeZone vs a flat record list (bounded/src/zone_ref.rs): add Ok/Err (not the error kind) == owner at/below apex and class matches and TTL equals the existing RRset\'s; '
+                          'iter_by_node yields every node once incl. empty non-terminals with exactly its de-duplicated RRsets; iter_by_rrset exactly those RRsets; soa()/ns() == apex SOA/NS; '
+                          'all lookups equal the reference built from the ACCEPTED records only (a rejected add changes nothing, creates no node)')],
         cex={},
         unverified=['HashMapTreeZone::iter_by_node and iter_by_rrset (boxed dyn iterators over closures/flat_map) and RrsetList::iter: not extracted; '
                     '"iteration yields every node once and exactly the RRsets added" is proved only for the Node::Iter state machine step + pure walk lemmas',
